@@ -234,7 +234,7 @@ class C01(ResolveSpec):
     assumptions = ["criteria indices in the generated stores are defined (validated store); see C15 for the rest"]
 
     def extra_cases(self):
-        return gen.gen_expect_cases(None, "builtin-mapped-to-nothing")
+        return gen.gen_expect_cases(None, "builtin-mapped-to-nothing") + gen.gen_expect_cases(None, "trusted-twin-windows")
 
     def gen_cases(self, rng, n):
         cases = []
@@ -877,7 +877,7 @@ class C04(ResolveSpec):
     gen_kwargs = {"p_violation": 0.5}
 
     def extra_cases(self):
-        return gen.gen_expect_cases(None, "peer-violation-mixed")
+        return gen.gen_expect_cases(None, "peer-violation-mixed") + gen.gen_expect_cases(None, "violation-deep-implication")
 
     def gen_cases(self, rng, n):
         cases = []
